@@ -188,7 +188,7 @@ func ReachDNF(from, to *ssa.BasicBlock, within func(*ssa.BasicBlock) bool) (dnf 
 	bad := false
 	var walk func(b *ssa.BasicBlock, lits []BoolLit, seen map[*ssa.BasicBlock]bool)
 	walk = func(b *ssa.BasicBlock, lits []BoolLit, seen map[*ssa.BasicBlock]bool) {
-		if bad || len(dnf) > 48 {
+		if bad || len(dnf) > 512 {
 			bad = true
 			return
 		}
